@@ -10,7 +10,7 @@
   at the inner corner of the corner box and semi-axes = the corner radius; `dx2`/`dy2` are the
   squared doubled offsets between the two centres.
 -/
-import EG.Lemmas.RoundedRectColumn
+import EG.Lemmas.RoundedRectEllipse
 namespace EG.C18
 open EG EG.RoundedRect
 
@@ -146,6 +146,23 @@ theorem rrect_columns_contiguous (r : RoundedRect) (h : r.InRange) (x y1 y2 y : 
 example : let r : RoundedRect := ⟨⟨⟨0, 0⟩, ⟨8, 6⟩⟩, CornerRadii.new ⟨2, 2⟩⟩
     r.InRange ∧ r.contains ⟨0, 1⟩ = true ∧ r.contains ⟨0, 4⟩ = true := by decide
 
--- [V] half_radii_eq_ellipse: with even sides and every radius half a side the rounded rectangle equals the ellipse of the same box (`contains` and `points()`): carried by correspondence + oracle only
+/-! ### even sides, every radius half a side: the ellipse -/
+
+/-- **`half_radii_eq_ellipse`**: with sides `2a x 2b` and every corner radius `(a, b)`, on the
+bounding box `contains` is literally `Ellipse::contains` of the ellipse with the same box
+(`EllipseContains::new(size).contains(point * 2 - center_2x(top_left, size))`, the shared
+`EllipseContains` model), and `points()` is the bounding box filtered by that test. -/
+theorem half_radii_eq_ellipse (tl : Pt) (a b : Nat) (h : (halfRadii tl a b).InRange) :
+    (∀ p, (halfRadii tl a b).boundingBox.contains p = true →
+      (halfRadii tl a b).contains p = ellipseTest tl a b p) ∧
+    (halfRadii tl a b).points = (halfRadii tl a b).boundingBox.points.filter (ellipseTest tl a b) := by
+  refine ⟨fun p hb => half_radii_contains tl a b h p hb, ?_⟩
+  rw [RoundedRect.points_eq_filter _ h]
+  apply List.filter_congr
+  intro p hp
+  exact half_radii_contains tl a b h p ((Rect.mem_points h).mp hp)
+example : (halfRadii ⟨-3, 2⟩ 4 3).InRange := by decide
+
+-- [V] that `ellipseTest` is false outside the box and that `Ellipse::points()` equals the box filtered by it (the ellipse's own C05 claim, ellipse topic): carried by correspondence + oracle only (the oracle compares `contains` over the box grown by 3 px and `points()` with `Ellipse` of the same box)
 -- [V] band of half a pixel stated with grown / shrunk semi-axes (implied by the exact ideal-ellipse theorems above for every corner; the oracle also evaluates the +-1/2 band directly): carried by correspondence + oracle only
 end EG.C18
